@@ -83,4 +83,80 @@ theorem resendStored_cfg' (c : C) : (resendStored c).cfg = (sendStored c).cfg :=
   rcases resendStored_eq c with h | h <;> rw [h]
   exact sendPostProcess_cfg' _
 
+
+/-! ## `releasePacketId` (fix ba1a812) = `releaseIfUsed`, then (if the id was in use) the id leaves
+the four wait sets, then (if a PUBACK/PUBREC was awaited for it) `decSendCount` -/
+
+/-- the identifier leaves `suback`, `unsuback`, `puback`, `pubrec` -/
+def dropWaits (c : C) (id : Nat) : C :=
+  { c with s := { c.s with suback := del id c.s.suback, unsuback := del id c.s.unsuback, puback := del id c.s.puback, pubrec := del id c.s.pubrec } }
+
+theorem releasePacketId_def (c : C) (id : Nat) :
+    releasePacketId c id =
+      if isUsed c.s id then
+        (if id ∈ (releaseIfUsed c id).s.puback ∨ id ∈ (releaseIfUsed c id).s.pubrec then
+          decSendCount (dropWaits (releaseIfUsed c id) id)
+        else dropWaits (releaseIfUsed c id) id)
+      else c := by
+  unfold releasePacketId releaseIfUsed dropWaits
+  split
+  · rfl
+  · rfl
+
+theorem releaseIfUsed_unused' {c : C} {id : Nat} (h : isUsed c.s id = false) : releaseIfUsed c id = c := by
+  unfold releaseIfUsed; rw [h]; rfl
+
+theorem releasePacketId_eq (c : C) (id : Nat) :
+    (isUsed c.s id = false ∧ releasePacketId c id = releaseIfUsed c id) ∨
+    (isUsed c.s id = true ∧ ¬ (id ∈ (releaseIfUsed c id).s.puback ∨ id ∈ (releaseIfUsed c id).s.pubrec) ∧
+      releasePacketId c id = dropWaits (releaseIfUsed c id) id) ∨
+    (isUsed c.s id = true ∧ (id ∈ (releaseIfUsed c id).s.puback ∨ id ∈ (releaseIfUsed c id).s.pubrec) ∧
+      releasePacketId c id = decSendCount (dropWaits (releaseIfUsed c id) id)) := by
+  rw [releasePacketId_def]
+  by_cases h : isUsed c.s id = true
+  · rw [if_pos h]
+    split
+    · rename_i h2; exact .inr (.inr ⟨h, h2, rfl⟩)
+    · rename_i h2; exact .inr (.inl ⟨h, h2, rfl⟩)
+  · rw [if_neg h]
+    have h' : isUsed c.s id = false := by simpa using h
+    exact .inl ⟨h', (releaseIfUsed_unused' h').symm⟩
+
+/-- transfer principle: what dropping wait-set entries and `decSendCount` preserve of
+    `releaseIfUsed`, `releasePacketId` has -/
+theorem releasePacketId_ind {Q : C → Prop} (c : C) (id : Nat)
+    (h1 : Q (releaseIfUsed c id))
+    (h2 : Q (releaseIfUsed c id) → Q (dropWaits (releaseIfUsed c id) id))
+    (h3 : Q (dropWaits (releaseIfUsed c id) id) → Q (decSendCount (dropWaits (releaseIfUsed c id) id))) :
+    Q (releasePacketId c id) := by
+  rcases releasePacketId_eq c id with ⟨_, h⟩ | ⟨_, _, h⟩ | ⟨_, _, h⟩ <;> rw [h]
+  · exact h1
+  · exact h2 h1
+  · exact h3 (h2 h1)
+
+/-- `decSendCount` changes no field but `sendCount` -/
+theorem decSendCount_s_cases (c : C) :
+    (decSendCount c).s = c.s ∨ (decSendCount c).s = { c.s with sendCount := c.s.sendCount - 1 } := by
+  unfold decSendCount
+  split
+  · exact .inr rfl
+  · exact .inl rfl
+
+theorem decSendCount_ev' (c : C) : (decSendCount c).ev = c.ev := by
+  unfold decSendCount; split <;> rfl
+
+theorem decSendCount_cfg' (c : C) : (decSendCount c).cfg = c.cfg := by
+  unfold decSendCount; split <;> rfl
+
+/-- the events and the configuration are those of `releaseIfUsed` -/
+theorem releasePacketId_ev' (c : C) (id : Nat) : (releasePacketId c id).ev = (releaseIfUsed c id).ev := by
+  rcases releasePacketId_eq c id with ⟨hu, h⟩ | ⟨_, _, h⟩ | ⟨_, _, h⟩ <;> rw [h]
+  · rfl
+  · rw [decSendCount_ev']; rfl
+
+theorem releasePacketId_cfg' (c : C) (id : Nat) : (releasePacketId c id).cfg = (releaseIfUsed c id).cfg := by
+  rcases releasePacketId_eq c id with ⟨hu, h⟩ | ⟨_, _, h⟩ | ⟨_, _, h⟩ <;> rw [h]
+  · rfl
+  · rw [decSendCount_cfg']; rfl
+
 end MqttVerif.Conn
